@@ -187,6 +187,19 @@ def search_C05_C06(pid, budget):
             fail(pid, "split-args", "no ValueError", args=[mn, mx, ms, aw])
         except ValueError:
             pass
+    # an AudioReader with overlapping windows: w is its BLOCK duration (each frame the tokenizer sees is one block)
+    from auditok import AudioReader
+    import struct as _s2
+    for (bd, hd, mx) in ((0.1, 0.05, 1.0), (0.2, 0.05, 0.6)):
+        n += 1
+        dd = _s2.pack("<400h", *([9000, -9000] * 200))       # 4 s of activity at 100 Hz
+        rd_ = AudioReader(dd, block_dur=bd, hop_dur=hd, sr=100, sw=2, ch=1)
+        regs = list(split(rd_, min_dur=bd, max_dur=mx, max_silence=0))
+        nwin = [round(len(r) / (bd * 100)) for r in regs]
+        lim = int(mx / bd + 1e-9)
+        if any(len(r) > lim * bd * 100 for r in regs) or not regs:
+            fail(pid, "split-overlap-reader", "AudioReader(block_dur=%r, hop_dur=%r) split with max_dur=%r: events of %r samples, "
+                 "floor(max_dur/block_dur)=%d windows of %d samples allow %d" % (bd, hd, mx, [len(r) for r in regs], lim, bd * 100, lim * bd * 100))
     # a threshold of 0 dB is a threshold, not "use the default"
     import struct
     faint, zero = struct.pack("<10h", *([3, -3] * 5)), bytes(20)
@@ -390,6 +403,20 @@ def search_C07(pid, budget):
     n0 = c07_buffers(pid)
     n = 0
     t0 = time.time()
+    # one validator judging windows of different lengths one after the other (a stream's last window is shorter; a
+    # validator may be re-used with another window size): each verdict is that of a fresh validator on the same window
+    loud = struct.pack("<40h", *([12000, -12000] * 20))
+    quiet = struct.pack("<40h", *([2, -2] * 20))
+    for ch in (1, 2):
+        for sel in ((None, "mix", 0, -1) if ch > 1 else (None,)):
+            for seq in ((loud, quiet[:16 * ch]), (quiet, loud[:16 * ch]), (loud[:16 * ch], quiet, loud), (quiet, quiet[:8 * ch], loud[:8 * ch], quiet[:4 * ch])):
+                n += 1
+                v = AudioEnergyValidator(50, 2, ch, use_channel=sel)
+                for k, wnd in enumerate(seq):
+                    got, ref = bool(v.is_valid(wnd)), bool(AudioEnergyValidator(50, 2, ch, use_channel=sel).is_valid(wnd))
+                    if got != ref:
+                        fail(pid, "is_valid-history", "window %d (%d bytes) of a sequence judged by ONE validator: verdict %r, a fresh validator says %r" % (
+                            k + 1, len(wnd), got, ref), sw=2, ch=ch, use_channel=sel, lengths=[len(x) for x in seq])
     ext = {1: (-128, 127), 2: (-32768, 32767), 4: (-2 ** 31, 2 ** 31 - 1)}
     for sw in (1, 2, 4):
         lo, hi = ext[sw]
@@ -486,6 +513,8 @@ def search_C09(pid, budget):
                                                     channels=ch, ch=ch + 1, analysis_window=aw, aw=aw * 3,
                                                     **{k: v for k, v in kw.items() if k != "analysis_window"}),
                 }
+                variants["AudioRegion that carries a start of its own (cut out of a longer stream)"] = lambda: regions_of(
+                    AudioRegion(data, sr, sw, ch, start=2.5), **kw)
                 variants["short aliases written BEFORE the long names (long still wins)"] = lambda: regions_of(
                     data, sr=sr + 7, sampling_rate=sr, sw=3 - sw if sw < 3 else 2, sample_width=sw, ch=ch + 1, channels=ch, **kw)
                 variants["AudioRegion next to contradicting long-name parameters"] = lambda: regions_of(
